@@ -490,6 +490,24 @@ func C_conc_blocks() {
 	vnd.NoRaces("")
 }
 `)
+	b.WriteString(`
+type zzOuter struct{ In *zzObj }
+
+// conc blocks with two and three members of one kind (three-level calls, method calls, function calls, assignments)
+func C_conc_same_kind() {
+	dc := newDC(nil)
+	dc.Add("w", &zzOuter{In: &zzObj{N: 4}})
+	dc.Add("obj", &zzObj{N: 5})
+	dc.Add("fn", func(q bool) int64 { return 1 })
+	rb := buildTextPlain(dc, "rule \"r\" begin\n conc {\n  w.In.Touch(false)\n  w.In.Touch(false)\n  w.In.Touch(false)\n }\n conc {\n  obj.Touch(false)\n  obj.Touch(false)\n }\n conc {\n  fn(false)\n  fn(false)\n }\n conc {\n  a = 1\n  b = 2\n }\n return a + b\nend\n")
+	eng := NewGengine()
+	err := eng.Execute(rb, true)
+	vnd.Assert(err == nil, "no member fails")
+	vnd.Reach("executed")
+	vnd.NoRaces("")
+}
+`)
+	fam.Instances = append(fam.Instances, Instance{Func: "C_conc_same_kind", Stratum: "conc", Desc: "conc blocks with several members of one kind", Expect: []string{"executed"}})
 	fam.Instances = append(fam.Instances, Instance{Func: "C_conc_blocks", Stratum: "conc", Desc: "conc block with every member kind, local and injected receivers", Expect: []string{"executed"}})
 	// pool: two requests
 	b.WriteString(`
